@@ -37,7 +37,7 @@ func newVHostTrie() *vhostTrie {
 	// in to "[::1]" (and vice-versa) even though the IP versions differ.
 	// This might be OK, or maybe it's not desirable. The 'bind' directive
 	// can be used to restrict what interface a listener binds to.
-	return &vhostTrie{edges: make(map[string]*vhostTrie), fallbackHosts: []string{"0.0.0.0", "::", ""}}
+	return &vhostTrie{edges: make(map[string]*vhostTrie), fallbackHosts: []string{"0.0.0.0", "::", "", "*"}}
 }
 
 // Insert adds stack to t keyed by key. The key should be
@@ -83,7 +83,10 @@ func (t *vhostTrie) Match(key string) (*SiteConfig, string) {
 		if branch != nil {
 			break
 		}
-		branch = t.matchHost(h)
+		// fallback hosts are literal names: looking them up must not
+		// expand them into wildcard patterns, or a site like "*.*.*.*"
+		// would be selected for every host via "0.0.0.0"
+		branch = t.edges[h]
 	}
 	if branch == nil {
 		return nil, ""
